@@ -1,6 +1,7 @@
 import BeyondVerif.Lemmas.Mat3
 import BeyondVerif.Lemmas.Chain
 import BeyondVerif.Generated.OrientProviders
+import BeyondVerif.Props.C20
 import Mathlib.Analysis.SpecialFunctions.Trigonometric.Deriv
 import Mathlib.Tactic.NormNum
 import Mathlib.Tactic.Positivity
@@ -54,5 +55,166 @@ theorem rot3_isRotation (θ : ℝ) : M3.IsRotation (rot3 θ) := by
   · simp [rot3, M3.det]; linear_combination h
 
 example : M3.IsRotation (rot3 1) := rot3_isRotation 1
+
+
+/-- products of `rot`s: `iau1980.nutation` -/
+theorem nutation80_isRotation (ttt dpsi deps : ℝ) : M3.IsRotation (nutation80 ttt dpsi deps) := by
+  simp only [nutation80]
+  exact ((rot1_isRotation _).mul (rot3_isRotation _)).mul (rot1_isRotation _)
+
+/-- `iau1980.precesion` -/
+theorem precession80_isRotation (ttt : ℝ) : M3.IsRotation (precession80 ttt) := by
+  simp only [precession80, precAngles80]
+  exact ((rot3_isRotation _).mul (rot2_isRotation _)).mul (rot3_isRotation _)
+
+/-- both polar-motion matrices (`iau1980.earth_orientation`, `iau2010.earth_orientation`) -/
+theorem polar80_isRotation (D : DateArgs) : M3.IsRotation (polar80 D) := by
+  simp only [polar80]
+  exact (rot1_isRotation _).mul (rot2_isRotation _)
+theorem polar10_isRotation (D : DateArgs) : M3.IsRotation (polar10 D) := by
+  simp only [polar10]
+  exact ((rot3_isRotation _).mul (rot2_isRotation _)).mul (rot1_isRotation _)
+
+/-- the station matrix `rot3(-lon) @ rot2(lat - π/2) @ rot3(π)` (translated from TopocentricOrientation.__init__) -/
+theorem topoMat_isRotation (lat lon : ℝ) : M3.IsRotation (topoMat lat lon) := by
+  simp only [topoMat]
+  exact ((rot3_isRotation _).mul (rot2_isRotation _)).mul (rot3_isRotation _)
+
+theorem cio_aux (X Y : ℝ) (h : X ^ 2 + Y ^ 2 < 1) :
+    0 < Real.cos (Real.arctan (Real.sqrt ((X ^ 2 + Y ^ 2) / (1 - X ^ 2 - Y ^ 2)))) ∧
+    Real.cos (Real.arctan (Real.sqrt ((X ^ 2 + Y ^ 2) / (1 - X ^ 2 - Y ^ 2)))) ^ 2 = 1 - X ^ 2 - Y ^ 2 := by
+  have hw : 0 < 1 - X ^ 2 - Y ^ 2 := by linarith
+  have hS : 0 ≤ X ^ 2 + Y ^ 2 := by positivity
+  refine ⟨Real.cos_arctan_pos _, ?_⟩
+  rw [Real.cos_sq_arctan, Real.sq_sqrt (div_nonneg hS hw.le)]
+  field_simp
+  ring
+
+/-- **the CIO-based precession-nutation matrix (`iau2010.precesion_nutation`, translated from the source) is a proper
+rotation for all X, Y with X² + Y² < 1 and all s** -/
+theorem cioMat_isRotation (X Y s : ℝ) (h : X ^ 2 + Y ^ 2 < 1) : M3.IsRotation (cioMat X Y s) := by
+  obtain ⟨hZpos, hZ⟩ := cio_aux X Y h
+  simp only [cioMat, powi, sqrt, atan, cos]
+  refine M3.IsRotation.mul ?_ (rot3_isRotation s)
+  generalize Real.cos (Real.arctan (Real.sqrt ((X ^ 2 + Y ^ 2) / (1 - X ^ 2 - Y ^ 2)))) = Z at hZpos hZ
+  have h1 : (1 + Z) ≠ 0 := by positivity
+  generalize ha' : (1 : ℝ) / (1 + Z) = a
+  have ha : a * (1 + Z) = 1 := by rw [← ha']; field_simp
+  have hq : a * (X ^ 2 + Y ^ 2) = 1 - Z := by linear_combination (1 - Z) * ha + a * hZ
+  refine ⟨?_, ?_, ?_⟩
+  · ext <;> simp only [M3.mul, M3.tr, M3.one] <;>
+      first
+        | ring1
+        | linear_combination (a * X ^ 2) * hq - X ^ 2 * ha
+        | linear_combination (a * Y ^ 2) * hq - Y ^ 2 * ha
+        | linear_combination (a * X * Y) * hq - (X * Y) * ha
+        | linear_combination (a * (X ^ 2 + Y ^ 2)) * hq - (X ^ 2 + Y ^ 2) * ha
+  · ext <;> simp only [M3.mul, M3.tr, M3.one] <;>
+      first
+        | ring1
+        | linear_combination (a * X ^ 2) * hq - X ^ 2 * ha
+        | linear_combination (a * Y ^ 2) * hq - Y ^ 2 * ha
+        | linear_combination (a * X * Y) * hq - (X * Y) * ha
+        | linear_combination (a * (X ^ 2 + Y ^ 2)) * hq - (X ^ 2 + Y ^ 2) * ha
+  · simp only [M3.det]
+    linear_combination (a * (X ^ 2 + Y ^ 2)) * hq - (X ^ 2 + Y ^ 2) * ha
+
+example : M3.IsRotation (cioMat 0.001 (-0.0002) 0.00003) := cioMat_isRotation _ _ _ (by norm_num)
+
+/-- the (X, Y) the CIO provider feeds into `cioMat` -/
+noncomputable def cioXY (D : DateArgs) : ℝ × ℝ :=
+  (deg2rad ((D.x10 + D.dx / 1000.0) / 3600.0), deg2rad ((D.y10 + D.dy / 1000.0) / 3600.0))
+
+/-- **every time-dependent provider of class Orientation returns a proper rotation** (for the CIO provider under
+X² + Y² < 1; in 1973–2017 X² + Y² < 1e-5).  The two constant providers are covered by `const_matrices_orthonormal`. -/
+theorem provider_isRotation (D : DateArgs) (hcio : (cioXY D).1 ^ 2 + (cioXY D).2 ^ 2 < 1) :
+    ∀ p ∈ [("TEME", "TOD"), ("PEF", "TOD"), ("TOD", "MOD"), ("MOD", "EME2000"), ("ITRF", "PEF"), ("ITRF", "TIRF"),
+           ("TIRF", "CIRF"), ("CIRF", "GCRF")],
+      ∃ M, edgeBuiltin D p.1 p.2 = some M ∧ M3.IsRotation M.r := by
+  intro p hp
+  simp only [List.mem_cons, List.not_mem_nil, or_false] at hp
+  rcases hp with rfl | rfl | rfl | rfl | rfl | rfl | rfl | rfl
+  · exact ⟨expand (rot3 (-deg2rad (equinox80 D.ttt D.dpsi4 D.day false))) none, by simp [edgeBuiltin], by simp only [expand]; exact rot3_isRotation _⟩
+  · exact ⟨expand (rot3 (deg2rad (-gastDeg80 D))) (some (vecOf (rate80 D.lod)).neg), by simp [edgeBuiltin], by simp only [expand]; exact rot3_isRotation _⟩
+  · exact ⟨expand (nutation80 D.ttt D.dpsi106 D.deps106) none, by simp [edgeBuiltin], by simp only [expand]; exact nutation80_isRotation _ _ _⟩
+  · exact ⟨expand (precession80 D.ttt) none, by simp [edgeBuiltin], by simp only [expand]; exact precession80_isRotation _⟩
+  · exact ⟨expand (polar80 D) none, by simp [edgeBuiltin], by simp only [expand]; exact polar80_isRotation _⟩
+  · exact ⟨expand (polar10 D) none, by simp [edgeBuiltin], by simp only [expand]; exact polar10_isRotation _⟩
+  · exact ⟨expand (rot3 (-era10 D.jdut1)) (some (vecOf (rate10 D.lod)).neg), by simp [edgeBuiltin], by simp only [expand]; exact rot3_isRotation _⟩
+  · exact ⟨expand (cio10 D) none, by simp [edgeBuiltin], by simp only [expand, cio10]; exact cioMat_isRotation _ _ _ hcio⟩
+
+/-- **the constant matrices G50→EME2000 and GCRF→EME2000 (decimals regenerated from orient.py) are orthonormal to
+1e-15 and have determinant within 1e-15 of 1** -/
+theorem const_matrices_orthonormal :
+    (∀ e ∈ (M3.add (M3.mul g50Mat (M3.tr g50Mat)) (M3.neg M3.one)).toList, |e| < 1e-15) ∧
+    (∀ e ∈ (M3.add (M3.mul gcrfBiasMat (M3.tr gcrfBiasMat)) (M3.neg M3.one)).toList, |e| < 1e-15) ∧
+    |M3.det g50Mat - 1| < 1e-15 ∧ |M3.det gcrfBiasMat - 1| < 1e-15 := by
+  refine ⟨?_, ?_, ?_, ?_⟩
+  · simp only [g50Mat, M3.mul, M3.tr, M3.one, M3.add, M3.neg, M3.toList, List.mem_cons, List.not_mem_nil, or_false]
+    rintro e (rfl | rfl | rfl | rfl | rfl | rfl | rfl | rfl | rfl) <;> rw [abs_lt] <;> constructor <;> norm_num
+  · simp only [gcrfBiasMat, M3.mul, M3.tr, M3.one, M3.add, M3.neg, M3.toList, List.mem_cons, List.not_mem_nil, or_false]
+    rintro e (rfl | rfl | rfl | rfl | rfl | rfl | rfl | rfl | rfl) <;> rw [abs_lt] <;> constructor <;> norm_num
+  · simp only [g50Mat, M3.det]; rw [abs_lt]; constructor <;> norm_num
+  · simp only [gcrfBiasMat, M3.det]; rw [abs_lt]; constructor <;> norm_num
+
+theorem const_matrices_invertible : M3.det g50Mat ≠ 0 ∧ M3.det gcrfBiasMat ≠ 0 := by
+  constructor
+  · simp only [g50Mat, M3.det]; norm_num
+  · simp only [gcrfBiasMat, M3.det]; norm_num
+
+/-- the provider table of the model is the list of `A_to_B` methods found in orient.py on this run -/
+theorem providers_match : providerNames = Generated.orientProviders := by decide
+
+/-! ## `expand` -/
+
+/-- **`expand(R, w)` applied to (r, v) is (R r, R v − w × R r)** -/
+theorem expand_apply (m : M3) (w p v : V3) :
+    (expand m (some w)).apply p v = (m.apply p, (m.apply v).sub (w.cross (m.apply p))) := by
+  simp only [expand, T6.apply]
+  refine Prod.ext rfl ?_
+  ext <;> simp only [V3.add, V3.sub, V3.cross, M3.apply, M3.mul, M3.neg, M3.skew] <;> ring
+
+theorem expand_apply_none (m : M3) (p v : V3) : (expand m none).apply p v = (m.apply p, m.apply v) := by
+  simp only [expand, T6.apply]
+  refine Prod.ext rfl ?_
+  ext <;> simp [V3.add, M3.apply, M3.zero]
+
+/-- **the inverse used for reverse edges (`np.linalg.inv(expand(R, w))`) is a two-sided inverse** whenever R is a rotation
+(more generally whenever det R ≠ 0) -/
+theorem expand_inv_mul (m : M3) (w : Option V3) (hm : M3.IsRotation m) :
+    T6.mul (T6.inv (expand m w)) (expand m w) = T6.one ∧ T6.mul (expand m w) (T6.inv (expand m w)) = T6.one := by
+  have hd : M3.det (expand m w).r ≠ 0 := by
+    cases w <;> simp only [expand] <;> rw [hm.2.2] <;> exact one_ne_zero
+  exact ⟨T6.inv_mul _ hd, T6.mul_inv _ hd⟩
+
+/-- **between frames sharing a centre the position map preserves norms** -/
+theorem norm_preserved (M : T6) (hM : M3.IsRotation M.r) (p v : V3) :
+    V3.dot (M.apply p v).1 (M.apply p v).1 = V3.dot p p := by
+  simp only [T6.apply]
+  exact hM.dot_apply p p
+
+/-- rotation-then-offset (`Frame.transform`: `m @ x + offset`) composed with the reverse transformation (inverse matrix,
+offset `-(m⁻¹ offset)`) is the identity -/
+theorem affine_roundtrip (M M' : T6) (h : T6.mul M' M = T6.one) (p v op ov : V3) :
+    let x := M.apply p v
+    let y := (x.1.add op, x.2.add ov)
+    let o' := M'.apply op ov
+    let z := M'.apply y.1 y.2
+    (z.1.add o'.1.neg, z.2.add o'.2.neg) = (p, v) := by
+  intro x y o' z
+  have hr := congrArg T6.r h
+  have hb := congrArg T6.b h
+  have hid := T6.apply_mul M' M p v
+  rw [h, T6.apply_one] at hid
+  have h1 := congrArg Prod.fst hid
+  have h2 := congrArg Prod.snd hid
+  simp only [T6.apply] at h1 h2
+  refine Prod.ext ?_ ?_
+  · have e1 := congrArg V3.x h1; have e2 := congrArg V3.y h1; have e3 := congrArg V3.z h1
+    simp only [M3.apply] at e1 e2 e3
+    ext <;> simp only [z, y, x, o', T6.apply, V3.add, V3.neg, M3.apply] <;> linarith
+  · have e1 := congrArg V3.x h2; have e2 := congrArg V3.y h2; have e3 := congrArg V3.z h2
+    simp only [M3.apply, V3.add] at e1 e2 e3
+    ext <;> simp only [z, y, x, o', T6.apply, V3.add, V3.neg, M3.apply] <;> linarith
 
 end BeyondVerif.C02
